@@ -2378,6 +2378,34 @@ theorem store_tree_leaves_only_by_expire (s : St) (o : Op) (h : Coherent s) (id 
   have r := refines_map_and_pending s o h
   exact abs_tree_leaves_only_by_expire (abs s) (aop s o) id c hp (by rw [← r]; exact hn)
 
+/-- **the roster of a stored tree is handed out** (`GetRoster`, what `handleRequestRoster` answers a peer of the
+deprecated exchange with): whatever else the store holds or has released -/
+theorem roster_of_stored_tree_found (ids : List Nat) (ro : Nat → Nat) (s : St) (j c : Nat) (hj : j ∈ ids)
+    (hs : (s.at_ j).slot = .present c) : getRosterIn ids ro s (ro j) = true := by
+  unfold getRosterIn
+  exact List.any_eq_true.mpr ⟨j, hj, by simp [get, hs]⟩
+
+/-- **the release of one tree does not take a sibling's roster away**: tree `j` is stored; after any operations on
+OTHER ids — removals scheduled, timers fired, routines completed, so that trees over the same roster are released —
+`GetRoster` still finds the roster of `j` (seeded change C11r7-A kept an index of rosters and dropped the entry with the
+first tree that went) -/
+theorem sibling_release_keeps_roster (ids : List Nat) (ro : Nat → Nat) (s : St) (j c : Nat) (hj : j ∈ ids)
+    (hs : (s.at_ j).slot = .present c) (ops : List Op) (hops : ∀ o ∈ ops, ∃ i o1, o = .on i o1 ∧ i ≠ j) :
+    getRosterIn ids ro (run s ops) (ro j) = true := by
+  apply roster_of_stored_tree_found ids ro _ j c hj
+  rw [independent]
+  have : ops.filterMap (restrict j) = [] := by
+    apply List.filterMap_eq_nil_iff.mpr
+    intro o ho
+    obtain ⟨i, o1, rfl, hne⟩ := hops o ho
+    simp [restrict, hne]
+  rw [this]; exact hs
+
+/-- non-vacuity: trees 0 and 1 over roster 0; tree 0 is removed and released; the roster is still found through tree 1 -/
+example : getRosterIn (List.range 6) (· / 3)
+    (run {} [.on 0 (.set 1), .on 1 (.set 1), .on 0 .remove, .on 0 .timer, .on 0 (.reap 0)]) 0 = true ∧
+    ((run {} [.on 0 (.set 1), .on 1 (.set 1), .on 0 .remove, .on 0 .timer, .on 0 (.reap 0)]).at_ 0).slot = .absent := by decide
+
 end Store
 
 /-! ### the code regions the model stands for
